@@ -175,20 +175,22 @@ func (te *TimerEntry) run(ctx context.Context) error {
 	return nil
 }
 
+// changed notes that the timers machine's state has changed.  (What
+// is reported is made by Crew.GetChanged: the machine's state with a
+// snapshot of the timers.)
 func (ts *Timers) changed() {
-	// Report the timers machine's whole state (not just the
-	// timers): a store that applies this change has to end up
-	// with what the machine really has.
-	st := ts.State()
-	if m, have := ts.c.Machines[TimersMachine]; have && m.State != nil {
-		st.NodeName = m.State.NodeName
-		for p, v := range m.State.Bs {
-			if _, have := st.Bs[p]; !have {
-				st.Bs[p] = v
-			}
-		}
+	ts.c.change(TimersMachine, func(ch *Changed) { ch.State = ts.State() })
+}
+
+// snapshot returns a copy of the map of pending timers.
+func (ts *Timers) snapshot() map[string]*TimerEntry {
+	ts.Lock()
+	acc := make(map[string]*TimerEntry, len(ts.Map))
+	for id, te := range ts.Map {
+		acc[id] = te
 	}
-	ts.c.change(TimersMachine).State = st
+	ts.Unlock()
+	return acc
 }
 
 func (ts *Timers) cancel(ctx context.Context, id string) error {
